@@ -304,10 +304,20 @@ def _decorate_namespace_property(
                 if base_func is None:
                     continue
 
-                bases_have_func = True
-
                 # Check if there is a checker function in the base class
                 base_contract_checker = icontract._checkers.find_checker(func=base_func)
+
+                if base_func is func or (
+                    base_contract_checker is not None
+                    and base_contract_checker
+                    is icontract._checkers.find_checker(func=func)
+                ):
+                    # The accessor has not been re-defined (*e.g.*, only the setter of an inherited property has been
+                    # extended with ``@Base.some_property.setter``). It already carries the contracts of the base;
+                    # collapsing them once more would duplicate them on the checker of the *base* accessor.
+                    continue
+
+                bases_have_func = True
 
                 # Ignore functions which don't have preconditions or postconditions
                 if base_contract_checker is not None:
